@@ -7,7 +7,12 @@ Legs:
              by the Stencil model, volumes by the Conserve model) over exact rationals.  This ties the
              *composition* the theorems are about to the code, with non-zero values.
   zero     : the property monitor: conserving conditions (periodic / derivative 0 / normal_value 0) on
-             every grid class incl. 3-d, anisotropic, with hole -> |integral| <= 1e-10 * scale.
+             every grid class incl. 3-d, anisotropic, with hole -> |integral| <= 1e-10 * scale.  Stratified: every
+             (grid class x number of axes) x {walls, periodic, mixed} / {hole, full, full with an arbitrary inner
+             condition} x {laplace, divergence where the property claims it} appears on every seed; stale ghost
+             cells hold random numbers.  Every case is also a correspondence case (`cons`): the ghost cells of the
+             real code are compared with `setGhostAll (consFaces | radialFaces ...)` of the model and the model
+             evaluates the very term of the zero-sum theorems of Props/C05b.lean, which must be exactly 0.
   sim      : Diffusion and Cahn-Hilliard runs with every solver (fixed and adaptive), integral recorded
              after every step; numba kernels with source semantics for breadth and JIT for a subset."""
 import math
@@ -21,7 +26,7 @@ from harness.common.isolated import run_many
 
 PID = "C05"
 LEVEL = "proof"
-EXTRA_PROP_FILES = ["C01Nine"]  # the 9-point Laplacian: corner-point setter and conservation
+EXTRA_PROP_FILES = ["C01Nine", "C05b", "C05c"]  # 9-point Laplacian; n-d + ghost-cell composition; solver steps
 REQUIRED_THEOREMS = [
     "stencil9_integral_zero", "cartLaplace9_integral_zero_neumann", "cartLaplace9_integral_zero_periodic_y", "cartLaplace9_integral_zero_periodic_x",
     "sumTo_telescope", "cart1_laplace_sum", "cart1_laplace_integral_zero_neumann", "cart1_laplace_integral_zero_periodic",
@@ -34,10 +39,31 @@ REQUIRED_THEOREMS = [
     "sph_laplace_nonconservative_not_conservative", "polar_divergence_not_conservative",
     "onesided_divergence_not_conservative_under_dirichlet",
     "integral_invariant_of_rate_zero_integral", "integral_invariant_over_steps",
+    # Props/C05b.lean: per-axis conserving ghost cells, n-d divergence, composition with setGhostAll and centre
+    "cart2_laplace_integral_zero", "cart3_laplace_integral_zero", "cart3_laplace_integral_zero_periodic",
+    "cyl_laplace_integral_zero_axes", "cyl_laplace_integral_zero_periodic_z",
+    "cart1_divergence_integral_zero_axes", "cart2_divergence_integral_zero", "cart3_divergence_integral_zero",
+    "backward_divergence_not_conservative_under_dirichlet",
+    "setGhostAll_neumann0", "setGhostAll_dirichlet0", "setGhostAll_periodic", "gridFaces_compatible",
+    "consFaces_scalar_line", "consFaces_vector_line",
+    "cart1_laplace_integral_zero_ghost", "cart2_laplace_integral_zero_ghost", "cart3_laplace_integral_zero_ghost",
+    "cart1_divergence_integral_zero_ghost", "cart2_divergence_integral_zero_ghost", "cart3_divergence_integral_zero_ghost",
+    "centre_lattice", "centre_inner_face", "centre_ne_zero", "centre_shell_ne",
+    "polar_laplace_integral_zero_grid", "sph_laplace_conservative_integral_zero_grid",
+    "sph_divergence_conservative_integral_zero_grid", "cyl_laplace_integral_zero_grid",
+    # Props/C05c.lean: the solver steps and loops of Model/Solvers.lean
+    "euler_step_conserves", "rk4_step_conserves", "rk4_step_conserves_source_tableau", "rkf45_step_conserves",
+    "implicit_iterates_conserve", "cn_iter_conserves", "cn_iterates_conserve", "ab2_step_conserves", "euler_var_conserves",
+    "solver_steps_conserve", "euler_steps_conserve", "fixedLoop_conserves", "fixedStepper_conserves",
+    "adaptiveLoop_conserves", "fixpointLoop_conserves", "fixedStepper_euler_rk4_conserve",
+    "cart1Rate_conserving", "cart2Rate_conserving", "cart3Rate_conserving", "polarRate_conserving", "sphRate_conserving",
+    "cylRate_conserving", "polar_euler_run_conserves",
 ]
 RULE = ("integral leg: seed-derived grids of all classes, integer field data, one random condition per side of any class "
         "(value, derivative, mixed, curvature, expressions, periodic; homogeneous and inhomogeneous) so that the integral is "
-        "generally non-zero; zero leg: conserving conditions with random real data on all classes incl. 3-d; sim leg: "
+        "generally non-zero; zero leg: conserving conditions with random real data (also in the stale ghost cells) on all classes "
+        "incl. 3-d, stratified so that every class x axes x {walls, periodic, mixed | hole, full, full+any inner condition} x "
+        "operator occurs on every seed, the rest seed-derived; sim leg: "
         "(equation, grid, solver, backend) combinations. Distinct by the whole case; non-trivial if the field is not constant.")
 ASSUMPTIONS = ["integrals compared at 1e-10 relative to sum(volume*|data|)/dx_min^2", "pi is factored out of curvilinear volumes"]
 TRUSTED_EXTRA = ["numba/scipy code generation and the external scipy integrator are observed only"]
@@ -90,8 +116,20 @@ def pi_power(cls):
 
 
 # ------------------------------------------------------------------------------------------
+def zero_spec(gd, op, kw):
+    """the conserving boundary conditions of a zero-leg case (py-pde vocabulary)"""
+    axes = list(c02.AXES[gd["cls"]])[:len(gd["shape"])]
+    wall = {"derivative": 0} if op == "laplace" else {"normal_value": 0}
+    spec = {ax: ("periodic" if per else wall) for ax, per in zip(axes, gd["periodic"])}
+    if kw.get("inner") is not None:  # full disk / ball / cylinder: any condition on the inner face
+        spec.pop("r")
+        spec["r-"], spec["r+"] = kw["inner"], wall
+    return spec
+
+
 def zero_case(arg):
-    """conserving conditions on a random grid; returns (integral, scale)"""
+    """conserving conditions on a random grid; returns (integral, scale, max |result|, padded input, padded array after
+    set_ghost_cells).  The ghost cells of the input hold random numbers (stale values must not matter)."""
     import logging
     import pde
 
@@ -99,21 +137,104 @@ def zero_case(arg):
     gd, op, seed, kw = arg
     grid = c02.make_grid(gd)
     rs = np.random.RandomState(seed)
-    axes = list(c02.AXES[gd["cls"]])[:len(gd["shape"])]
-    if op == "laplace":
-        f = pde.ScalarField(grid, rs.uniform(-3, 3, grid.shape))
-        spec = {ax: ("periodic" if per else {"derivative": 0}) for ax, per in zip(axes, gd["periodic"])}
-        res = f.laplace(bc=spec, **kw)
-    else:
-        data = rs.uniform(-3, 3, (grid.dim,) + tuple(grid.shape))
-        if gd["cls"] == "SphericalSymGrid":
-            data[1:] = 0
-        f = pde.VectorField(grid, data)
-        spec = {ax: ("periodic" if per else {"normal_value": 0}) for ax, per in zip(axes, gd["periodic"])}
-        res = f.divergence(bc=spec, **kw)
+    rank = 0 if op == "laplace" else 1
+    full = rs.uniform(-3, 3, (grid.dim,) * rank + tuple(n + 2 for n in grid.shape))
+    if rank and gd["cls"] == "SphericalSymGrid":
+        full[1:] = 0  # spherical symmetry: only the radial component
+    cls = pde.VectorField if rank else pde.ScalarField
+    f = cls(grid, data=full.copy(), with_ghost_cells=True)
+    spec = zero_spec(gd, op, kw)
+    okw = {k: v for k, v in kw.items() if k != "inner"}
+    res = getattr(f, op)(bc=spec, **okw)
+    g = cls(grid, data=full.copy(), with_ghost_cells=True)
+    g.set_ghost_cells(spec)
     vol = grid.cell_volumes
-    scale = float(np.sum(vol * np.abs(f.data).sum(axis=0) if f.rank else vol * np.abs(f.data))) / min(grid.discretization) ** 2
-    return float(np.asarray(res.integral)), scale, float(np.abs(res.data).max())
+    inner = kw.get("inner") or {}
+    extra = max([abs(float(v)) for v in inner.values() if isinstance(v, (int, float))] + [0.0])
+    scale = float(np.sum(vol * (np.abs(f.data).sum(axis=0) if rank else np.abs(f.data))) + np.sum(vol) * extra) / min(grid.discretization) ** 2
+    return float(np.asarray(res.integral)), scale, float(np.abs(res.data).max()), full, np.array(g._data_full)
+
+
+PER_PATTERNS = {1: {"walls": [[False]], "periodic": [[True]]},
+                2: {"walls": [[False, False]], "periodic": [[True, True]], "mixed": [[True, False], [False, True]]},
+                3: {"walls": [[False] * 3], "periodic": [[True] * 3],
+                    "mixed": [[True, False, False], [False, True, False], [False, False, True], [True, True, False], [True, False, True], [False, True, True]]}}
+INNER_SCALAR = [{"value": 1.75}, {"derivative": -0.5}, {"type": "mixed", "value": 0.5, "const": 1.25}, {"value": -2.0}]
+INNER_VECTOR = [{"normal_value": 1.25}, {"normal_derivative": 0.75}]
+
+
+def strat_grid(rng, cls, nax, periodic, hole):
+    """a grid of the given class with the given periodicity / hole; sizes and spacings as `c02.gen_grid`"""
+    c = cls if cls != "cart" else rng.choice(["UnitGrid", "CartesianGrid", "CartesianGrid", "CartesianGrid"])
+    shape = [rng.randint(1, 4 if nax < 3 else 3) for _ in range(nax)]
+    bounds = []
+    for i in range(nax):
+        dx = rng.choice([0.25, 0.5, 1.0, 2.0, 0.125, 1.5, 0.75])
+        if c == "UnitGrid":
+            dx, lo = 1.0, 0.0
+        elif c != "CartesianGrid" and i == 0:
+            lo = rng.choice([0.5, 1.0, 2.25]) if hole else 0.0
+        else:
+            lo = rng.choice([0.0, -1.0, 0.5, -2.75, 3.0])
+        bounds.append([lo, lo + dx * shape[i]])
+    return {"cls": c, "shape": shape, "bounds": bounds, "periodic": list(periodic)}
+
+
+def zero_strata(rng):
+    """one job (grid, op, kw, label) per stratum: every class x axes x boundary pattern x operator the property claims"""
+    out = []
+    for nax in (1, 2, 3):
+        for pat, choices in PER_PATTERNS[nax].items():
+            for op in ("laplace", "divergence"):
+                out.append((strat_grid(rng, "cart", nax, rng.choice(choices), False), op, {}, f"cart{nax}:{op}:{pat}"))
+        # every variant of the difference conserves on a fully periodic grid
+        for mth in ("forward", "backward"):
+            out.append((strat_grid(rng, "cart", nax, [True] * nax, False), "divergence", {"method": mth},
+                        f"cart{nax}:divergence-{mth}:periodic"))
+    for pat, choices in PER_PATTERNS[2].items():
+        out.append((strat_grid(rng, "cart", 2, rng.choice(choices), False), "laplace",
+                    {"corner_weight": rng.choice([0.5, 1 / 3, 0.25])}, f"cart2:laplace-9-point:{pat}"))
+    for where in ("hole", "full", "full-any-inner"):
+        hole = where == "hole"
+        inner_s = {"inner": rng.choice(INNER_SCALAR)} if where == "full-any-inner" else {}
+        inner_v = {"inner": rng.choice(INNER_VECTOR)} if where == "full-any-inner" else {}
+        out.append((strat_grid(rng, "PolarSymGrid", 1, [False], hole), "laplace", dict(inner_s), f"polar:laplace:{where}"))
+        out.append((strat_grid(rng, "SphericalSymGrid", 1, [False], hole), "laplace", dict(inner_s), f"sph:laplace:{where}"))
+        out.append((strat_grid(rng, "SphericalSymGrid", 1, [False], hole), "divergence", dict(inner_v, conservative=True), f"sph:divergence:{where}"))
+        for pz in (False, True):
+            out.append((strat_grid(rng, "CylindricalSymGrid", 2, [False, pz], hole), "laplace", dict(inner_s),
+                        f"cyl:laplace:{where}:{'periodic-z' if pz else 'walls-z'}"))
+    return out
+
+
+def cons_request(gd, op, kw, full):
+    """request for the driver handler `c05.cons`: the term of the zero-sum theorems (Props/C05b.lean) for this case"""
+    cls = CLS[gd["cls"]]
+    nax = len(gd["shape"])
+    dxs = [Fraction(b[1] - b[0]) / n for b, n in zip(gd["bounds"], gd["shape"])]
+    req = {"cls": cls, "shape": gd["shape"], "lo": [q(b[0]) for b in gd["bounds"]], "dx": [q(d) for d in dxs],
+           "per": [bool(p) for p in gd["periodic"]], "op": op, "vector": op == "divergence",
+           "dim": c02.DIM.get(gd["cls"], nax), "data": [q(float(x)) for x in np.asarray(full).ravel()]}
+    if "method" in kw:
+        req["method"] = kw["method"]
+    inner = kw.get("inner")
+    if inner is not None:
+        face = gd["shape"][1:]  # shape of the inner face (the z axis of a cylinder)
+        nface = int(np.prod(face)) if face else 1
+        rep = lambda v: [q(float(v))] * nface  # noqa
+        if "value" in inner and inner.get("type") != "mixed":
+            cond, normal = {"kind": "dirichlet", "v": rep(inner["value"])}, False
+        elif "derivative" in inner:
+            cond, normal = {"kind": "neumann", "v": rep(inner["derivative"])}, False
+        elif inner.get("type") == "mixed":
+            cond, normal = {"kind": "mixed", "v": rep(inner["value"]), "c": rep(inner["const"])}, False
+        elif "normal_value" in inner:
+            cond, normal = {"kind": "dirichlet", "v": rep(inner["normal_value"])}, True
+        else:
+            cond, normal = {"kind": "neumann", "v": rep(inner["normal_derivative"])}, True
+        cond["vshape"] = face
+        req["inner"] = {"normal": normal, "cond": cond}
+    return req
 
 
 def sim_case(arg):
@@ -171,7 +292,7 @@ def run(ctx):
             op, rank, classes = "divergence", 1, ("cart", "sph", "polar")
         else:
             op, rank, classes = "laplace", 0, None
-        c = gen_case_rank(rng, rank, ctx.hist, classes, max_axes=2 if op == "divergence" else 3)
+        c = gen_case_rank(rng, rank, ctx.hist, classes, max_axes=3)
         cls = CLS[c["grid"]["cls"]]
         kw = {}
         if cls == "sph":
@@ -220,11 +341,16 @@ def run(ctx):
             if not (abs(model - rr["integral"]) <= 1e-11 * scale):
                 ctx.disagree("integral:" + rname, key, model, rr["integral"], "volume-weighted sum differs")
 
-    # ---- zero leg: the property monitor --------------------------------------------------------
-    n_zero = ctx.budget(120, 1200)
+    # ---- zero leg: the property monitor (and the correspondence of the theorems' ghost-cell composition) ------------
+    n_zero = ctx.budget(132, 1200)
     zjobs = []
-    for k in range(n_zero):
-        op = "divergence" if k % 3 == 2 else "laplace"
+    strata = zero_strata(rng)
+    per_stratum = max(1, n_zero // len(strata))
+    for rep_ in range(per_stratum):
+        for gd, op, kw, label in (strata if rep_ == 0 else zero_strata(rng)):
+            zjobs.append((gd, op, rng.randint(0, 10 ** 6), kw, label))
+    while len(zjobs) < n_zero:  # the rest: seed-derived grids as before
+        op = "divergence" if len(zjobs) % 3 == 2 else "laplace"
         while True:
             gd = c02.gen_grid(rng, min_cells=1)
             cls = CLS[gd["cls"]]
@@ -236,23 +362,67 @@ def run(ctx):
             kw = {"conservative": True}
         if op == "laplace" and cls == "cart" and len(gd["shape"]) == 2 and rng.random() < 0.5:
             kw = {"corner_weight": rng.choice([0.5, 1 / 3, 0.25])}  # documented 9-point stencils
-        zjobs.append((gd, op, rng.randint(0, 10 ** 6), kw))
-    res_z = run_many("harness.c05", "zero_case", zjobs, env={"NUMBA_DISABLE_JIT": "1"}, procs=16)
-    for (gd, op, seed, kw), rr in zip(zjobs, res_z):
-        key = {"grid": gd, "op": op, "seed": seed}
+        zjobs.append((gd, op, rng.randint(0, 10 ** 6), kw, "random"))
+    res_z = run_many("harness.c05", "zero_case", [j[:4] for j in zjobs], env={"NUMBA_DISABLE_JIT": "1"}, procs=16)
+    # a subset again with the compiled kernels (one stratum each; compilation costs seconds per case)
+    n_zj = ctx.budget(8, 48)
+    zj_ids = sorted(rng.sample(range(min(len(strata) * per_stratum, len(zjobs))), min(n_zj, len(zjobs))))
+    res_zj = run_many("harness.c05", "zero_case", [zjobs[i][:4] for i in zj_ids], env={"NUMBA_DISABLE_JIT": "0"}, procs=16)
+    for i, rr in zip(zj_ids, res_zj):
+        gd, op, seed, kw, label = zjobs[i]
+        key = {"grid": gd, "op": op, "seed": seed, "kw": kw, "mode": "jit"}
         ctx.count(key, nontrivial=True, leg="zero")
-        ctx.hist("zero", f"{CLS[gd['cls']]}:{op}:{len(gd['shape'])}d:{'hole' if CLS[gd['cls']] != 'cart' and gd['bounds'][0][0] else 'full'}:{'periodic' if any(gd['periodic']) else 'walls'}")
+        ctx.hist("zero-jit", label)
+        ctx.monitor_evals += 1
+        if isinstance(rr, str):
+            ctx.disagree("zero", key, "runs", rr[-500:], "real code raised (compiled kernels)")
+            continue
+        val, scale, mx = rr[:3]
+        if not (abs(val) <= 1e-10 * max(scale, 1e-300)):
+            ctx.monitor_fail("zero", key, {"integral": val, "scale": scale, "max_abs_result": mx},
+                             "|integral| <= 1e-10*scale", f"{CLS[gd['cls']]} {op}: conserving conditions do not integrate to zero",
+                             key={"cls": CLS[gd["cls"]], "op": op})
+    zbatch = LeanBatch(ctx.workdir)
+    zidx = {}
+    for k, ((gd, op, seed, kw, label), rr) in enumerate(zip(zjobs, res_z)):
+        if not isinstance(rr, str) and "corner_weight" not in kw:  # the 9-point stencil has its own model (Props/C01Nine)
+            zidx[k] = zbatch.add("c05.cons", cons_request(gd, op, kw, rr[3]))
+    zans = zbatch.run()
+    for k, ((gd, op, seed, kw, label), rr) in enumerate(zip(zjobs, res_z)):
+        key = {"grid": gd, "op": op, "seed": seed, "kw": kw, "mode": "source"}
+        cls = CLS[gd["cls"]]
+        ctx.count(key, nontrivial=True, leg="zero")
+        where = ("full-any-inner" if kw.get("inner") else "hole" if gd["bounds"][0][0] else "full") if cls != "cart" else "-"
+        pat = "periodic" if all(gd["periodic"]) else "mixed" if any(gd["periodic"]) else "walls"
+        ctx.hist("zero", f"{cls}:{op}:{len(gd['shape'])}d:{where}:{pat}")
+        ctx.hist("zero-stratum", label)
         if "corner_weight" in kw:
             ctx.hist("zero-9-point", f"periodic={gd['periodic']}")
+        if "method" in kw:
+            ctx.hist("zero-onesided", f"{kw['method']}:{len(gd['shape'])}d")
+        if kw.get("inner"):
+            ctx.hist("zero-inner", f"{cls}:{sorted(kw['inner'])}")
         ctx.monitor_evals += 1
         if isinstance(rr, str):
             ctx.disagree("zero", key, "runs", rr[-500:], "real code raised")
             continue
-        val, scale, mx = rr
+        val, scale, mx, full, ghost = rr
         if not (abs(val) <= 1e-10 * max(scale, 1e-300)):
-            ctx.monitor_fail("zero", dict(key, kw=kw), {"integral": val, "scale": scale, "max_abs_result": mx},
-                             "|integral| <= 1e-10*scale", f"{CLS[gd['cls']]} {op}: conserving conditions do not integrate to zero",
-                             key={"cls": CLS[gd["cls"]], "op": op})
+            ctx.monitor_fail("zero", key, {"integral": val, "scale": scale, "max_abs_result": mx},
+                             "|integral| <= 1e-10*scale", f"{cls} {op}: conserving conditions do not integrate to zero",
+                             key={"cls": cls, "op": op})
+        if k in zidx:  # the composition the theorems are about: same ghost cells as the real code, and exactly zero
+            ctx.impl_traces += 1
+            st, ans = zans[zidx[k]]
+            if st != "ok":
+                ctx.disagree("cons", key, f"model error {ans}", "runs")
+                continue
+            bad = c02.compare_arrays([unq(x) for x in ans["ghost"]], ghost, 1.0)
+            if bad is not None:
+                ctx.disagree("cons:ghost-cells", key, str(ans["ghost"][bad]) if bad >= 0 else "shape", float(np.asarray(ghost).ravel()[bad]) if bad >= 0 else "shape",
+                             f"set_ghost_cells of the conserving conditions differs from setGhostAll (consFaces ...) at flat index {bad}")
+            if unq(ans["integral"]) != 0:
+                ctx.disagree("cons:theorem-term", key, ans["integral"], val, "the term of the zero-sum theorem does not evaluate to exactly 0")
 
     # ---- sim leg -----------------------------------------------------------------------------------
     solvers = [("euler", False), ("runge-kutta", False), ("implicit", False), ("crank-nicolson", False),
@@ -262,8 +432,8 @@ def run(ctx):
     for k in range(n_sim):
         eqname = rng.choice(["diffusion", "cahn-hilliard", "cahn-hilliard", "two-fields"])
         cls_pick = rng.choice(["CartesianGrid", "CartesianGrid", "PolarSymGrid", "SphericalSymGrid", "CylindricalSymGrid"])
-        nax = {"PolarSymGrid": 1, "SphericalSymGrid": 1, "CylindricalSymGrid": 2}.get(cls_pick) or rng.choice([1, 2])
-        shape = [rng.randint(4, 8) for _ in range(nax)]
+        nax = {"PolarSymGrid": 1, "SphericalSymGrid": 1, "CylindricalSymGrid": 2}.get(cls_pick) or rng.choice([1, 2, 2, 3])
+        shape = [rng.randint(4, 8) if nax < 3 else rng.randint(3, 4) for _ in range(nax)]
         dxs = [rng.choice([0.5, 1.0, 0.75]) for _ in range(nax)]
         lo = [rng.choice([0.0, 1.0]) if (cls_pick != "CartesianGrid" and i == 0) else 0.0 for i in range(nax)]
         per = [False if (cls_pick in ("PolarSymGrid", "SphericalSymGrid") or (cls_pick == "CylindricalSymGrid" and i == 0)) else rng.random() < 0.5 for i in range(nax)]
@@ -293,14 +463,15 @@ def run(ctx):
     n_simj = ctx.budget(4, 24)
     jobs_j = [tuple(list(j[:3]) + ["numba"] + list(j[4:])) for j in rng.sample(sjobs, min(n_simj, len(sjobs)))]  # compiled
     res_simj = run_many("harness.c05", "sim_case", jobs_j, env={"NUMBA_DISABLE_JIT": "0"}, procs=16)
-    for job, rr in list(zip(sjobs, res_sim)) + list(zip(jobs_j, res_simj)):
+    for mode, job, rr in [("source", j, r) for j, r in zip(sjobs, res_sim)] + [("jit", j, r) for j, r in zip(jobs_j, res_simj)]:
         eqname, gd, solver, backend, adaptive, dt, steps, seed, skw, eopts = job
         key = {"eq": eqname, "grid": gd, "solver": solver, "backend": backend, "adaptive": adaptive, "dt": dt, "steps": steps, "seed": seed,
-               "solver_options": skw, "equation_options": eopts}
+               "solver_options": skw, "equation_options": eopts, "mode": mode}
         if eopts:
             ctx.hist("equation-options", f"{eqname}:{sorted((k, str(v)) for k, v in eopts.items())}")
         ctx.count(key, nontrivial=True, leg="sim")
         ctx.hist("sim", f"{eqname}:{solver}{'(adaptive)' if adaptive else ''}:{backend}:{CLS[gd['cls']]}")
+        ctx.hist("sim-grid", f"{CLS[gd['cls']]}:{len(gd['shape'])}d:{mode}")
         if skw:
             ctx.hist("solver-options", f"{solver}:{sorted(skw.items())}")
         ctx.monitor_evals += 1
@@ -335,16 +506,31 @@ def judge_sim(rr):
 
 
 def replay(ctx, rep):
+    """re-runs the recorded case in the recorded execution mode (fresh interpreter, numba kernels with source semantics or
+    compiled) and judges the recorded symptom"""
+    from harness.common.isolated import run_one
+
     c = rep["case"]
     if rep["leg"] == "zero":
-        val, scale, mx = zero_case((c["grid"], c["op"], c["seed"], c.get("kw", {})))
-        print("integral", val, "scale", scale)
-        return abs(val) <= 1e-10 * max(scale, 1e-300)
+        rr = run_one("harness.c05", "zero_case", (c["grid"], c["op"], c["seed"], c.get("kw", {})),
+                     env={"NUMBA_DISABLE_JIT": "0" if c.get("mode") == "jit" else "1"})
+        if isinstance(rr, str):
+            print(rr[-800:])
+            return False
+        val, scale, mx = rr[:3]
+        print("integral", val, "scale", scale, "max |result|", mx)
+        return bool(abs(val) <= 1e-10 * max(scale, 1e-300))
     if rep["leg"] == "sim":
-        rr = sim_case((c["eq"], c["grid"], c["solver"], c["backend"], c["adaptive"], c["dt"], c["steps"], c["seed"],
-                       c.get("solver_options", {}), c.get("equation_options", {})))
+        jit = c.get("mode", "source") == "jit"
+        rr = run_one("harness.c05", "sim_case", (c["eq"], c["grid"], c["solver"], c["backend"], c["adaptive"], c["dt"], c["steps"], c["seed"],
+                                                 c.get("solver_options", {}), c.get("equation_options", {})),
+                     env={"NUMBA_DISABLE_JIT": "0" if jit else "1"})
         print(rr)
+        if isinstance(rr, str) or "error" in rr:
+            return False
         dev, bad, sc, judged = judge_sim(rr)
         return not bad and len(rr["rec"]) >= 2
-    print(c)
+    # the integral and cons legs only produce model/code disagreements (broken ties); run.py replays those by re-running the
+    # whole check of the recorded seed and tier (kind == "no-failing-input-found") and never calls this function for them
+    print(f"leg {rep['leg']!r} has no property monitor of its own: cannot be replayed as a failing input -> REPLAY-FAIL")
     return False
